@@ -175,6 +175,8 @@ PROMOTABLE = [
     ('bytes', lambda bits: routes.to_bytes(bits), lambda bits: len(bits) % 8 == 0),
     ('bytearray', lambda bits: bytearray(routes.to_bytes(bits)), lambda bits: len(bits) % 8 == 0),
     ('memoryview', lambda bits: memoryview(routes.to_bytes(bits)), lambda bits: len(bits) % 8 == 0),
+    ('mv_strided', lambda bits: memoryview(routes.interleave(routes.to_bytes(bits)))[::2], lambda bits: len(bits) % 8 == 0),
+    ('mv_reversed', lambda bits: memoryview(routes.to_bytes(bits)[::-1])[::-1], lambda bits: len(bits) % 8 == 0),
     ('list', lambda bits: [c == '1' for c in bits], True),
     ('tuple', lambda bits: tuple(int(c) for c in bits), True),
     ('bitarray', lambda bits: __import__('bitarray').bitarray(bits), True),
@@ -236,6 +238,10 @@ def _src(name, bits):
         return f"bytearray({routes.to_bytes(bits)!r})"
     if name == 'memoryview':
         return f"memoryview({routes.to_bytes(bits)!r})"
+    if name == 'mv_strided':
+        return f"memoryview({routes.interleave(routes.to_bytes(bits))!r})[::2]"
+    if name == 'mv_reversed':
+        return f"memoryview({routes.to_bytes(bits)[::-1]!r})[::-1]"
     if name == 'list':
         return repr([c == '1' for c in bits])
     if name == 'tuple':
